@@ -358,7 +358,9 @@ class DiagLayer:
         # dictionary (this is quite hacky...)
         if sub_tree.get(-1) is None:
             sub_tree[-1] = [service]
-        else:
+        elif not any(x is service for x in cast(List[DiagService], sub_tree[-1])):
+            # a service is only added once even if multiple of its
+            # coding objects exhibit the same prefix
             cast(List[DiagService], sub_tree[-1]).append(service)
 
     def _find_services_for_uds(self, message: bytes) -> List[DiagService]:
